@@ -163,6 +163,8 @@ TKeyed ==
              THEN {"ts"} ELSE {}
       fMem == IF e.post.mem # S!MemOf(newkv, klen, N) THEN {"mem"} ELSE {}
       fLen == IF e.post.len # S!CountOf(newkv, N) THEN {"len"} ELSE {}
+      \* C13: an admitted write never pushes usage above the configured limit
+      fLim == IF cfg.lim >= 0 /\ newgen /\ e.post.mem > cfg.lim /\ e.post.mem > Mem THEN {"limit"} ELSE {}
   IN
   /\ Ev.e = "call" /\ Ev.op \in KeyedOps
   /\ kv' = newkv
@@ -171,7 +173,7 @@ TKeyed ==
                                  THEN S!TMax2(S!TMax2(floor[i], acc), o1.fold) ELSE floor[i]]
   /\ pin' = [i \in 1 .. N |-> pin[i] \/ (i = k /\ ~isAuto /\ ~S!IsErr(r) /\ NearMax(T3(e.ts))
                                           /\ (newgen \/ op = "delete"))]
-  /\ flags' = fRes \cup fEff \cup fExp \cup fOther \cup fC11 \cup fTs \cup fMem \cup fLen
+  /\ flags' = fRes \cup fEff \cup fExp \cup fOther \cup fC11 \cup fTs \cup fMem \cup fLen \cup fLim
   /\ UNCHANGED <<now, cfg, klen>>
 
 (* ------------------------------------------------------------------ whole-store calls *)
@@ -218,7 +220,7 @@ ExpiryExact == flags \cap {"exp", "c11"} = {}
 \* C12: automatic versions
 AutoTsOK == "ts" \notin flags
 \* C13: accounting
-AccountingExact == flags \cap {"mem", "len"} = {}
+AccountingExact == flags \cap {"mem", "len", "limit"} = {}
 \* C14: range queries
 RangeExact == "range" \notin flags
 
